@@ -67,7 +67,7 @@ CLAIMED = {
         "with redundant components, through a symlink, relative from the parent; names and bytes of all outputs are compared; probe facts at two locations are compared with each other and with the model.",
    note=TB + " Determinism of emission order inside the code generators (iteration over source-ordered node lists) is observed by byte comparison, not proved."),
  "C14": dict(engine="lean+pest tree+in-process generators+cli", technique="Lean 4 proof for the marking block (all marking texts) + exhaustive per-program trivia sweep against pest and the real generators",
-   text="Partial. Lean 4: for EVERY marking text the C/C++/Rust marking block consists of blank lines and lines starting with `//` only (so it lexes as comments, whatever the text contains), with the str::lines() model; the Java block is refuted for markings containing `*/` (known finding). "
+   text="Partial. Lean 4: for EVERY marking text the C/C++/Rust marking block consists of blank lines and lines starting with `//` only (so it lexes as comments, whatever the text contains), with the str::lines() model; the Java block is refuted for markings containing `*/` (known finding). For EVERY documentation text without `*/` (the grammar admits no other), every indentation, asterisk style and byte content, the comment emitted for C/C++/Java closes only with its own terminator (renderDoc_closes_only_at_end: the block minus its last character contains no `*/`) and every line emitted for Rust starts with `///` and has one newline, its last character (rust_line_is_comment, rust_line_one_newline) — model of documentation.rs over bytes, tied on every run: the real output of C, C++, Rust and Java for every documentation variant (incl. multi-byte characters at every column) must contain the model's rendering. "
         "Not modelled (decided by pest and by pst.rs's decoders): trivia invariance. It is tied exhaustively per program: every trivia kind (space, tab, newline, // and /* */ comments, non-ASCII) is inserted at EVERY token gap in turn; placements the current grammar rejects (asked from a pest parser derived from /repo's grammar file) are not counted; "
         "all 8 outputs of the real generators must equal the baseline. Documentation comments before every method (outputs equal after comment stripping), 4 marking texts x 4 backends (output = independently rendered block + unmarked output), typed vs untyped C output after renaming object types. "
         "Three genuine defects found this way were repaired in /repo (comments inside declarations, documentation lost across an ordinary comment, const dropped by --no-typed-objects).",
